@@ -1835,10 +1835,11 @@ class Data(BaseCartesianData):
         if isinstance(data, categorical_ndarray):
             data = data.codes
 
-        if axis is None and mask is None:
+        if axis is None and mask is None and statistic in ('minimum', 'maximum', 'mean', 'median'):
             # Since we are just finding overall statistics, not along axes, we
             # can remove any broadcasted dimension since these should not affect
-            # the statistics.
+            # the statistics. This is not the case for the sum, nor for
+            # percentiles (which are interpolated) so we exclude these.
             data = unbroadcast(data)
 
         if random_subset and data.size > random_subset:
